@@ -92,6 +92,10 @@ package grpctunnel
 //@   loop 1 invariant[C01,C13] @first     first == (off == 0) && size == uint32(len(old(data)))
 //@   loop 1 invariant[C01,C13] @fits32    len(old(data)) <= 4294967295
 //@   loop 1 invariant[C01]     @nonempty  off == 0 || len(data) > 0
+//@   at select#1
+//@     assert[C05] @waitonlyatzero windowSz == 0
+//@   at call CompareAndSwap#1
+//@     assert[C05,C06] @casnonzero windowSz != 0 && arg1 == windowSz && arg2 == windowSz - chunkSz && chunkSz <= windowSz
 //@   at aftercall CompareAndSwap#1
 //@     ghost casOK = result
 //@     ghost casOld = arg1
@@ -132,6 +136,10 @@ package grpctunnel
 //@   nopanic[C09]
 
 //@ func (*defaultSender).updateWindow
+//@   at call Add#1
+//@     assert[C05] @addnonzero add != 0 && arg1 == add
+//@   at select#1
+//@     assert[C05] @offeronlyafterzero prevWindow == 0 && add != 0
 //@   assigns s.currentWindow
 //@   effects nosend, nowait
 //@   nopanic[C09]
@@ -248,6 +256,8 @@ package grpctunnel
 
 //@ func newSender
 //@   requires sendFunc != nil && ctx != nil
+//@   at return#1
+//@     assert[C05] @oneslot chancap(s.windowUpdates) == 1 && atomicLoad(s.currentWindow) == initialWindowSize && !isClosed(s.windowUpdates)
 //@   assigns nothing
 //@   ensures fresh(result)
 //@   ensures[C11] result is *defaultSender
